@@ -195,7 +195,10 @@ def run_markdown(M):
                     except Exception:
                         pass
             if seq[0] % 2:
-                m._change_dialect("no")
+                try:
+                    m._change_dialect("no")
+                except AttributeError:
+                    M.count("advisory.private_dialect_switch_unavailable")
             m.reset()
             M.count("markdown_reset_checks")
             M.case(h64(["md", default, seq]))
